@@ -190,6 +190,11 @@ def _expand(call: ast.Call, callee: ast.FunctionDef, is_method: bool, caller: as
     """-> (statements, returned expression or None) for one call, or None when the arguments cannot be bound"""
     a = callee.args
     ps = [x.arg for x in a.posonlyargs + a.args]
+    receiver = None
+    if is_method == "receiver":
+        if not ps or ps[0] != "self" or not isinstance(call.func, ast.Attribute):
+            return None
+        receiver = call.func.value
     if is_method and ps and ps[0] in ("self", "cls"):
         ps = ps[1:]
     if any(isinstance(x, ast.Starred) for x in call.args) or any(k.arg is None for k in call.keywords) or len(call.args) > len(ps):
@@ -253,6 +258,10 @@ def _expand(call: ast.Call, callee: ast.FunctionDef, is_method: bool, caller: as
             continue
         if n in caller_names:
             rename[n] = n + suffix
+    if receiver is not None:
+        if any(isinstance(x, ast.Name) and x.id == "self" and isinstance(x.ctx, (ast.Store, ast.Del)) for s in body for x in ast.walk(s)):
+            return None
+        mapping["self"] = receiver  # the helper's `self` is the object the caller holds
     sub = _Subst(mapping, rename)
     out = pre + [sub.visit(copy.deepcopy(s)) for s in stmts]
     rexpr = sub.visit(copy.deepcopy(ret)) if ret is not None else None
@@ -410,6 +419,12 @@ def inline_unknown_helpers(trees: Dict[str, ast.Module], known: Optional[set] = 
                 q = f"{mod}.{cls}.{f.attr}"
                 if q in cand and any(isinstance(d, ast.Name) and d.id == "staticmethod" for d in cand[q].decorator_list):
                     return q, False
+            # a helper method called on an object held in an attribute (self.ghe.helper(..)): when exactly one class of the
+            # package defines a method of that name and it is not a pinned one, the call is that method with the holder as `self`
+            if isinstance(f, ast.Attribute) and isinstance(f.value, ast.Attribute) and _chain(f.value):
+                owners = [q_ for q_ in funcs if q_.rsplit(".", 1)[-1] == f.attr and q_.count(".") >= 2]
+                if len(owners) == 1 and owners[0] in cand and not cand[owners[0]].decorator_list:
+                    return owners[0], "receiver"
             return None
 
         def rewrite_block(body: List[ast.stmt], mod, cls, caller) -> List[ast.stmt]:
@@ -720,8 +735,31 @@ def propagate_record_fields(trees: Dict[str, ast.Module]) -> int:
     done = 0
     touched = set()
 
+    # functions of the package that only compute: no store to an attribute / element, no global, no in-place method on anything
+    shallow_pure = set()
+    impure = set()
+    for t in trees.values():
+        for f_ in [x for x in ast.walk(t) if isinstance(x, ast.FunctionDef)]:
+            bad = any((isinstance(x, (ast.Attribute, ast.Subscript)) and isinstance(x.ctx, (ast.Store, ast.Del))) or isinstance(x, (ast.Global, ast.Nonlocal, ast.Yield, ast.YieldFrom))
+                      or (isinstance(x, ast.Call) and isinstance(x.func, ast.Attribute) and x.func.attr in ("append", "extend", "insert", "pop", "remove", "clear", "sort", "reverse", "update", "write", "writerows"))
+                      or (isinstance(x, ast.Call) and isinstance(x.func, ast.Name) and x.func.id in ("print", "open", "exit"))
+                      for x in ast.walk(f_))
+            (impure if bad else shallow_pure).add(f_.name)
+    shallow_pure -= impure
+    PURE_BUILTINS = {"max", "min", "len", "abs", "float", "int", "sum", "round", "floor", "ceil", "sqrt", "log", "exp", "str", "bool", "tuple", "list"}
+
     def pure(e):
-        return all(isinstance(x, (ast.Name, ast.Constant, ast.Attribute, ast.Subscript, ast.expr_context)) for x in ast.walk(e))
+        for x in ast.walk(e):
+            if isinstance(x, (ast.Name, ast.Constant, ast.Attribute, ast.Subscript, ast.expr_context, ast.keyword)):
+                continue
+            if isinstance(x, ast.Call):
+                fn_ = x.func
+                nm = fn_.id if isinstance(fn_, ast.Name) else (fn_.attr if isinstance(fn_, ast.Attribute) else None)
+                if nm in PURE_BUILTINS or nm == "index" or (nm in shallow_pure and (isinstance(fn_, ast.Name) or (isinstance(fn_.value, ast.Name) and fn_.value.id in ("self", "cls")))):
+                    continue
+                return False
+            return False
+        return True
 
     for mod, t in trees.items():
         for fn in [x for x in ast.walk(t) if isinstance(x, ast.FunctionDef)]:
@@ -775,7 +813,7 @@ def propagate_record_fields(trees: Dict[str, ast.Module]) -> int:
                                 oc = _chain_text(x.func.value)
                                 if oc in read_chains and x.func.attr in ("append", "extend", "insert", "pop", "remove", "clear", "sort", "reverse", "update"):
                                     bad = True
-                                if oc == "self" and "self" in read_names:
+                                if oc == "self" and "self" in read_names and x.func.attr not in shallow_pure:
                                     bad = True
                     if bad:
                         continue
